@@ -455,7 +455,7 @@ def bookkeeping_sites(tier, seed):
 
 def bounded_programs(tier, seed):
     from pvc import bounded
-    return [bounded.run(PROPERTY, "generated-dataflow-programs", rule="generated workflows passing task results into other tasks directly, through getitem / getattr / operators, nested containers, cond / catch / seq and default "
+    return [bounded.run(PROPERTY, "generated-dataflow-programs", env=({} if tier == "quick" else {"C21_DEEP": "1"}), timeout=6000, rule="generated workflows passing task results into other tasks directly, through getitem / getattr / operators, nested containers, cond / catch / seq and default "
                         "parameters, each run twice (the second run after changing an upstream task, so that expressions come back from the cache): the Argument rows are the values the task received "
                         "(defaults as keyword arguments) and the ArgumentResult rows link each argument to exactly the upstream call nodes of the reference dataflow")]
 
